@@ -37,7 +37,9 @@ def utf8(n):
     except UnicodeEncodeError:
         return False
 
-SCRIPTS = [b'keep;', b'', b'discard;\r\n', b'\x00\xff bin', b'if true { keep; }', b'x' * 300, b'not a script (']
+SCRIPTS = [b'keep;', b'', b'discard;\r\n', b'\x00\xff bin', b'if true { keep; }', b'x' * 300, b'not a script (',
+           # script bytes that end like the announcement of a literal: they never take part in the framing of the command
+           b'keep;\r\n# see {3+}', b'{0+}', b'keep; # {2']
 MAXLEN = 200
 
 
